@@ -23,6 +23,7 @@ RULE = ('weights: strictly monotonic source (2-10 levels; 1 level noted) and '
         'linear and conserve with random fields, also with a model top other '
         'than the file\'s (constant-field law). non-trivial = target differs '
         'from source; distinct = digest of the spec.')
+RULE += (' Also: integer-typed source coordinates, coordkey other than the dimension name, a linear-profile law for the linear interpSigma with another model top.')
 ASSUMPTIONS = [
     'laws, not a reference implementation: non-negativity, partition of '
     'unity, linear exactness, identity, clipping at the edges when not '
